@@ -53,7 +53,7 @@ LENV = (0, 1, 2, 3, 4, 5, 0xFFFF)
 def run(tier, replay=None):
     v = common.Verdict('C06', tier, 'exploration')
     import logging
-    logging.getLogger().setLevel(logging.ERROR)      # "Unrecognized payload" warnings of the parser are not what is judged here
+    logging.disable(logging.WARNING)                 # "Unrecognized payload" warnings of the parser are not what is judged here
     rnd = random.Random(common.SEED)
     stats = {'tla_mutations': 0, 'u16_sweeps': 0, 'truncations': 0, 'byte_mutations': 0, 'inner_resealed': 0, 'random': 0, 'structured_random': 0}
     outcomes = {}
@@ -179,6 +179,50 @@ def run(tier, replay=None):
         data = W.enc_header(b'C' * 8, b'D' * 8, first, 2, 0, rnd.choice((34, 35, 36, 37)), rnd.choice((0, 8, 0x20, 0x28)), rnd.randrange(4), 28 + len(chain)) + chain
         stats['structured_random'] += 1
         go(data, 'structured', both=False)
+    # (4b) text-like content (Vendor ID, FQDN / e-mail identity, notification data) of the shapes that make pattern matching blow up: a long run of one
+    #      class of characters followed by one character of another class, repeated separators, nested-looking structure.  Work done inside a built-in
+    #      (a regular expression, a codec) is invisible to the line budget: each parse runs under a wall-clock limit.
+    import signal
+    import time as _time
+
+    class _Slow(Exception):
+        pass
+
+    def _alarm(signum, frame):
+        raise _Slow()
+    runs = {'a': b'a', '0': b'0', '.': b'.', '-': b'-', ' ': b' ', 'a.': b'a.', 'a-': b'a-', '\\': b'\\', '(': b'(', 'é': 'é'.encode()}
+    tails = (b'', b'!', b'!-1.0', b'-1.0', b'@', b'\x00', b'\xff', b'.', b')')
+    texts = [unit * (n // len(unit)) + tail for unit in runs.values() for n in (24, 64, 400) for tail in tails]
+    base = [{'t': W.SA, 'proposals': [{'num': 1, 'proto': 1, 'spi': b'', 'transforms': [{'type': 1, 'id': 12, 'keylen': 256}, {'type': 3, 'id': 12, 'keylen': None},
+                                                                                      {'type': 2, 'id': 5, 'keylen': None}, {'type': 4, 'id': 19, 'keylen': None}]}]},
+            {'t': W.NONCE, 'data': b'\x33' * 32}]
+    old_handler = signal.signal(signal.SIGALRM, _alarm)
+    try:
+        for text in texts:
+            for carrier in ([{'t': W.VENDOR, 'data': text}], [{'t': W.IDI, 'id_type': 2, 'data': text}], [{'t': W.IDR, 'id_type': 3, 'data': text}],
+                            [{'t': W.NOTIFY, 'proto': 0, 'spi': b'', 'ntype': 16390, 'data': text}]):
+                data = W.enc_message({'spi_i': b'E' * 8, 'spi_r': b'\0' * 8, 'xchg': 34, 'response': False, 'initiator': True, 'mid': 0}, base + carrier)
+                stats['text_content'] = stats.get('text_content', 0) + 1
+                t0 = _time.perf_counter()
+                signal.setitimer(signal.ITIMER_REAL, 1.5)
+                try:
+                    try:
+                        V.M.Message.parse(data)
+                    finally:
+                        signal.setitimer(signal.ITIMER_REAL, 0)
+                except _Slow:
+                    v.violation(f'text content: parsing a {len(data)}-octet IKE_SA_INIT datagram (payload type {carrier[0]["t"]}, {len(text)} octets of text) does not finish within 1.5 s',
+                                {'data': data.hex()}, signature={'component': 'parse:slow-text', 'payload': carrier[0]['t']})
+                    break
+                except Exception:      # noqa: B902 - outcome classes are judged by the other families; here only the time
+                    pass
+                if _time.perf_counter() - t0 > 0.5:
+                    v.violation(f'text content: parsing a {len(data)}-octet datagram took {_time.perf_counter() - t0:.2f} s', {'data': data.hex()},
+                                signature={'component': 'parse:slow-text', 'payload': carrier[0]['t']})
+                    break
+    finally:
+        signal.setitimer(signal.ITIMER_REAL, 0)
+        signal.signal(signal.SIGALRM, old_handler)
     # (5) "in time linear in the input length" where the executed-line budget cannot see it (work done inside built-in operations): well-formed, correctly
     #     sealed messages whose repeated elements are all different, at size n and 8n - the parse time may grow 8-fold, not 64-fold
     import time
@@ -219,7 +263,7 @@ def run(tier, replay=None):
                         f'({t8 / max(t1, 1e-4):.0f} times for 8 times the input)', {'shape': name}, signature={'component': 'parse:superlinear', 'shape': name.split()[0]})
     v.coverage['scaling'] = scaling
     v.coverage.update({'evaluations': sum(outcomes.values()), 'distinct_nontrivial': len(distinct), 'families': stats, 'outcomes': outcomes,
-                       'rule': 'Wire.tla LenMut/NextMut families (chain verdict from ParseChain), every header of the universe with an empty / skipped-only chain - all cleartext inputs both without keys and as received by an IKE_SA that has keys + every 16-bit field position of authentic datagrams of each '
+                       'rule': 'text content of pattern-hostile shapes (runs of one character class + a tail of another, in VENDOR / ID / NOTIFY) under a wall-clock limit; Wire.tla LenMut/NextMut families (chain verdict from ParseChain), every header of the universe with an empty / skipped-only chain - all cleartext inputs both without keys and as received by an IKE_SA that has keys + every 16-bit field position of authentic datagrams of each '
                                'exchange set to {0..5, cur-1, cur+1, 0xFFFF} + every truncation + octet mutations {^01, ^80, =00, =FF} + inner chains mutated and '
                                're-sealed with the right keys (and malformed ciphertext lengths) under right / wrong / no keys + raw and structured random strings; '
                                'distinct = distinct byte strings; each judged on outcome class and executed-line budget 4000 + 600*len',
